@@ -708,7 +708,9 @@ class MemorizedFunc(Logger):
                 # hash. This is more likely to falsely change than have hash
                 # collisions, thus we are on the safe side.
                 func_hash = self._hash_func()
-                if func_hash == _FUNCTION_HASHES[self.func]:
+                # The entry can be removed concurrently (e.g. Memory.clear
+                # called in another thread): do not index the mapping.
+                if func_hash == _FUNCTION_HASHES.get(self.func):
                     return True
         except TypeError:
             # Some callables are not hashable
